@@ -596,7 +596,7 @@ def gen_ll1(vs):
                 return 'DLeaf tree label N (%s) (convert_leaf gram_%s (nth %d ex_toks_%s ex_tok0))' % (lab(toks[x[1]]), n, x[1], n)
             return 'DNode tree label N %d [%s]' % (rid[x[1]], '; '.join(emit(k) for k in x[2]))
         F = rid['file_input']
-        out = ['(* GENERATED by harness/translator.py - do not edit *)', 'Require Import Regex Tok Engine LL1 LL1Inst LL1Engine Grammars.',
+        out = ['(* GENERATED by harness/translator.py - do not edit *)', 'Require Import Regex Tok Engine LL1 LL1Inst LL1Engine EngineSound Grammars.',
                'From Coq Require Import List NArith ZArith Bool.', 'Import ListNotations.', 'Open Scope N_scope.',
                '(* table obligation: every hypothesis of the completeness theorem holds for the tables of this grammar *)',
                'Lemma ll1_tables_ok_%s : tables_ok gram_%s tr_%s fw_%s 200 = true.' % (n, n, n, n),
@@ -617,7 +617,19 @@ def gen_ll1(vs):
                '  wfb gram_%s tree ex_deriv_%s = true /\\ FW fw_%s %d (LRes 0) = true /\\' % (n, n, n, F),
                '  word_of gram_%s ex_toks_%s = yield tree label N ex_deriv_%s /\\' % (n, n, n),
                '  match ex_deriv_%s with DNode _ _ _ F kb => parse gram_%s tr_%s false F ex_toks_%s = convert_node gram_%s F (map (collapse tree label N (mk_node gram_%s)) kb) | _ => False end.' % (n, n, n, n, n, n),
-               'Proof. vm_compute. repeat split. Qed.']
+               'Proof. vm_compute. repeat split. Qed.',
+               '(* table obligation of the soundness theorem: every plan is an arc or an arc followed by a first chain, arcs name rules of the grammar *)',
+               'Lemma ll1_tables_sound_ok_%s : tables_sound_ok gram_%s tr_%s = true.' % (n, n, n),
+               'Proof. vm_compute. reflexivity. Qed.',
+               '(* hence (C05, valid inputs): whatever the strict parser of this grammar accepts without the missing-newline repair is the converted collapse of a derivation of the token word *)',
+               'Theorem C05_sound_%s : forall S0 toks t, toks <> [] -> parse_nr gram_%s tr_%s S0 toks = POk t ->' % (n, n, n),
+               '  exists kb, wf tree N label N (arcT gram_%s) (arcN gram_%s) (startR gram_%s) (final gram_%s) (validR gram_%s) (DNode tree label N S0 kb) /\\' % (n, n, n, n, n),
+               '    yield tree label N (DNode tree label N S0 kb) = word_of gram_%s toks /\\' % n,
+               '    convert_node gram_%s S0 (map (collapse tree label N (mk_node gram_%s)) kb) = POk t /\\ parse gram_%s tr_%s false S0 toks = POk t.' % (n, n, n, n),
+               'Proof. exact (engine_sound gram_%s tr_%s ll1_tables_sound_ok_%s). Qed.' % (n, n, n),
+               '(* non-vacuity: the example token list is accepted without repair *)',
+               'Example C05_nonvacuous_%s : match parse_nr gram_%s tr_%s %d ex_toks_%s with POk _ => True | PErr _ => False end.' % (n, n, n, F, n),
+               'Proof. vm_compute. exact I. Qed.']
         write_if_changed(os.path.join(GEN, 'LL1_%s.v' % n), '\n'.join(out) + '\n')
 
 
